@@ -67,6 +67,18 @@ def rowsStep (s : List Row × Bool) (op : Op Row) : (List Row × Bool) × Out Ro
   | .emit _ => if s.2 then let r := Spec.step s.1 op; ((r.1, s.2), r.2) else (s, .panic)
   | .clear => let r := Spec.step s.1 op; ((r.1, s.2), r.2)
 
+/-- `GroupValuesColumn`: the specification, except that `emit(All)` leaves the hash table (and
+    `group_index_lists`) populated; what a following non-empty `intern` does then depends on stale
+    indices (out-of-bounds reads) and is outside the model until `clear_shrink` resets the table -/
+def colStep (s : List Row × Bool) (op : Op Row) : (List Row × Bool) × Out Row :=
+  match op with
+  | .intern ks =>
+    if s.2 && !ks.isEmpty then (s, .invalid)
+    else let r := Spec.step s.1 op; ((r.1, s.2), r.2)
+  | .emit .all => let r := Spec.step s.1 op; ((r.1, s.2 || !s.1.isEmpty), r.2)
+  | .emit _ => let r := Spec.step s.1 op; ((r.1, s.2), r.2)
+  | .clear => (([], false), .unit)
+
 def finish : Option (List String) → String
   | some ls => " ".intercalate ls
   | none => "unsupported"
@@ -77,7 +89,8 @@ def handle (op : String) (arg : Sexp) : String :=
     match hm.asNat?, ops.mapM parseOp with
     | some hashmod, some os =>
       match kind with
-      | "spec" => finish (runShow Spec.step List.length showRow ([] : List Row) os)
+      | "spec" => finish (runShow colStep (fun s => s.1.length) showRow (([] : List Row), false) os)
+      | "unordered" => "unsupported"
       | "rows" => finish (runShow rowsStep (fun s => s.1.length) showRow (([] : List Row), false) os)
       | "prim" =>
         match os.mapM cellOp with
